@@ -153,6 +153,17 @@ CHECKS["C09"] = dict(
          "paths carrying that signature are kept apart and one is replayed per run, every other violation is still reported. "
          "Outside: SHA-1 collisions, IPv6, keyword mapping, the facts/CSV files.")
 
+CHECKS["C10"] = dict(
+    text="Bounded symbolic execution of the real Cleaner.clean_content / obfuscators / ContentProvider.write with every set() of the "
+         "cleaner modules replaced by an OSet whose iteration follows an engine-chosen total order (= any PYTHONHASHSEED): for 8 "
+         "contents where obfuscators compete (keyword inside host name, address inside a longer token, several hosts on a line) x "
+         "hostname/mac switches x exemptions x one unconstrained appended character, every order must give the obfuscator sequence "
+         "and the output of one fixed order; for every sequence of <=3 (quick) / <=4 (thorough) lines of 5 kinds under two "
+         "configurations the output keeps input order, one line per surviving line, an all-blank result collapses to nothing and "
+         "the provider refuses to store it.",
+    note="Counterexamples are replayed in child interpreters under PYTHONHASHSEED 0..11. Stubs as in C08 plus recorded open()/"
+         "ensure_path. Outside: clean_file file I/O, IPv6.")
+
 NOT_APPLICABLE = {
 }
 
